@@ -243,12 +243,24 @@ def run(ctx):
         # all recv calls on the client path go through receive_server_message
         direct = sorted({c.body.name for c in F.all_calls("pgcat::server::Server::recv") if c.body.name.startswith("pgcat::client::") and "receive_server_message" not in c.body.name})
         r6.check(not direct, "client-recv-only-via-helper", "the client path receives from servers only through receive_server_message", "un-timed Server::recv on the client path in %s" % direct)
-    untimed = []
-    for fn in ("pgcat::server::Server::sync_parameters::{closure#0}", "pgcat::server::Server::checkin_cleanup::{closure#0}", "pgcat::server::Server::register_prepared_statement::{closure#0}"):
-        b = F.body(fn)
-        if b and (b.calls("pgcat::server::Server::query") or b.calls("pgcat::server::Server::recv")):
-            untimed.append(fn.split("::")[-2])
-    r6.note("server I/O not under a pgcat timeout (reported, not armed): %s" % untimed)
+    # `a dead or hung server is detected within the configured ... timeouts rather than blocking clients indefinitely`: besides the client's own statements,
+    # pgcat talks to the server a client holds on its own behalf - sync_parameters right after the checkout, checkin_cleanup at the end, Parse / Close for
+    # the statement cache. Each such await on the client path has to be the future of a timeout, like the replies the client waits for (D68: none is)
+    OWN = ("pgcat::server::Server::sync_parameters", "pgcat::server::Server::checkin_cleanup", "pgcat::server::Server::register_prepared_statement", "pgcat::server::Server::close_evicted_prepared_statements")
+    n_own = 0
+    by_callee = {}
+    for c in F.all_calls(*OWN):
+        if not c.body.name.startswith("pgcat::client::"):
+            continue
+        n_own += 1
+        b_ = c.body
+        timed = any(any(o.kind == "call" and o.call.block == c.block for o in origins(b_, t.args[1], taint=True)) for t in b_.calls("re:^tokio::time::timeout::timeout$") if len(t.args) > 1)
+        by_callee.setdefault(c.name.split("::")[-1], []).append(timed)
+    r6.check(n_own >= 5, "own-request-sites", "%d awaits of pgcat's own server requests on the client path" % n_own, "only %d own-request sites found on the client path (7 known)" % n_own)
+    for callee, timed_l in sorted(by_callee.items()):
+        r6.check(all(timed_l), "own-request-deadline:" + callee, "every %s(..) on the client path runs under a timeout" % callee,
+                 "%s(..) is awaited on the client path without a deadline (%d of %d site(s)): a server that hangs while pgcat talks to it on its own behalf is never detected - the client waits for ever although "
+                 "statement_timeout is configured, the connection stays checked out, the server is not banned" % (callee, len([t for t in timed_l if not t]), len(timed_l)))
     fc = F.body(FROM_CONFIG)
     if fc:
         ct = fc.calls("re:^bb8::api::Builder::connection_timeout$")
